@@ -269,6 +269,51 @@ def gen(rng, tier):
     return streams
 
 
+# ---------------------------------------------------------------- the unproved lemma, tested
+def pivot_hypothesis_test(chk, rng, tier):
+    """c15_sliceby_sorted_partial assumes srt_partition_ok (doPivot returns a three-zone
+    partition).  That lemma is not proved in Coq; here it is tested directly on the
+    extracted model function srt_do_pivot: segments [lo,hi) with hi-lo > 12 inside longer
+    arrays, all adversarial families, strict weak orders only."""
+    cases = []
+    cnt = 1500 if tier == "quick" else 20000
+    for _ in range(cnt):
+        w = rng.choice([13, 14, 20, 40, 41, 42, 60, rng.range(13, 120), rng.range(13, 400)])
+        lo = rng.choice([0, 0, 1, 5, rng.range(0, 30)])
+        tail = rng.choice([0, 0, 3, rng.range(0, 20)])
+        fam = families(rng, w)
+        name, seg = rng.choice(fam)
+        keys = [rng.range(-5, 5) for _ in range(lo)] + seg + [rng.range(-5, 5) for _ in range(tail)]
+        cases.append("c15P %d %d %d %s" % (rng.choice(CONSISTENT), lo, lo + w, " ".join(map(str, keys))))
+    outs = common.run_model(cases)
+    bad = 0
+    for c, o in zip(cases, outs):
+        t = c.split()
+        mode, lo, hi = int(t[1]), int(t[2]), int(t[3])
+        keys = [int(x) for x in t[4:]]
+        why = None
+        if not o.startswith("m="):
+            why = "doPivot model did not return: " + o[:60]
+        else:
+            parts = dict(p.split("=", 1) for p in o.split())
+            mlo, mhi = [int(x) for x in parts["m"].split(",")]
+            k2 = lst(parts["k"])
+            le = lambda x, y: not less(mode, y, x)
+            if not (lo <= mlo < mhi <= hi):
+                why = "bounds lo <= mlo < mhi <= hi violated"
+            elif k2[:lo] != keys[:lo] or k2[hi:] != keys[hi:] or sorted(k2[lo:hi]) != sorted(keys[lo:hi]):
+                why = "not a permutation of the segment / outside touched"
+            else:
+                p = k2[mlo]
+                if not (all(le(x, p) for x in k2[lo:mlo]) and all(le(x, p) and le(p, x) for x in k2[mlo:mhi])
+                        and all(le(p, x) for x in k2[mhi:hi])):
+                    why = "three-zone postcondition violated"
+        if why:
+            bad += 1
+            chk.diverge("dopivot-partition-hypothesis", c, o, "", "hypothesis srt_partition_ok of c15_sliceby_sorted_partial refuted on the model: " + why)
+    chk.cov["dopivot_partition_hypothesis_tested"] = dict(cases=len(cases), violations=bad)
+
+
 # ---------------------------------------------------------------- vm_compute cross-check
 def coq_crosscheck(chk, cases, model_out):
     items = []
@@ -395,6 +440,10 @@ def run(chk):
                 chk.cov["vm_compute_crosschecked"] = n
             except Exception as ex:
                 chk.infra_errors.append("vm_compute cross-check failed: %r" % (ex,))
+            try:
+                pivot_hypothesis_test(chk, chk.rng.fork(), chk.tier)
+            except Exception as ex:
+                chk.infra_errors.append("doPivot hypothesis test failed: %r" % (ex,))
             # canary (DESIGN.md section 7): the model variant WITHOUT the depth limit must be told
             # apart from the real code by the observation (number of less calls) on killer inputs;
             # if not, the comparison is too weak to notice a missing heapsort fallback
